@@ -202,5 +202,28 @@ JWE_HARNESSES = [h_jwe_compact_bytes, h_jwe_compact_header_json_dir, h_jwe_compa
                  h_jwt_decode_jwe] + JWE_JSON_HARNESSES
 HARNESSES = [h_jws_compact_bytes, h_jws_compact_header_json, h_jws_compact_str, h_7797_compact_header_json,
              h_jws_flattened_members, h_jws_general_members, h_jwt_decode_jws]
+def h_jws_any_key_kind():
+    """A well-formed key of a type the token's algorithm does not take is still rejected with a library error only
+    (compact and flattened JSON paths have separate gates)."""
+    alg = sym_choice("alg", ["HS256", "RS256", "ES256", "EdDSA"])
+    kind = sym_choice("key", ["oct", "rsa", "ec", "ed25519", "x25519"])
+    if kind == "oct":
+        key = oct_key("k")[0]
+    elif kind == "rsa":
+        key = make_key("rsa", "K", False)
+    elif kind == "ec":
+        key = make_key("ec", "K", False, "secp256r1")
+    else:
+        key = make_key("okp", "K", False, kind)
+    hb = spec_utf8(spec_jsonc({"alg": alg}))
+    p, sg = sym_bytes("p"), sym_bytes("s")
+    out = call(jws.deserialize_compact, compact_token(hb, p, sg), key, ["HS256", "RS256", "ES256", "EdDSA"])
+    check(out.raised_only(JoseError, ValueError), "jws.deserialize_compact(key of any kind): only JoseError / ValueError escape")
+    value = {"payload": spec_b64u(p).decode("ascii"), "protected": spec_b64u(hb).decode("ascii"), "signature": spec_b64u(sg).decode("ascii")}
+    out2 = call(jws.deserialize_json, value, key, ["HS256", "RS256", "ES256", "EdDSA"])
+    check(out2.raised_only(JoseError, ValueError), "jws.deserialize_json(key of any kind): only JoseError / ValueError escape")
+
+
+HARNESSES.append(h_jws_any_key_kind)
 HARNESSES += JWE_HARNESSES
 THOROUGH_HARNESSES = [h_jwe_compact_ecdh_header_json_ec, h_jwe_compact_ecdh_header_json_okp, h_jwe_compact_ecdh_header_json_kw]
